@@ -51,6 +51,21 @@ func checkC19(p *Prog, rp *Report) {
 			}
 		}
 	}
+	c19Order(p, rp)
+	if dscT != nil && depT != nil && nodeT == nil {
+		// the function does not use the topsort package: there is no sorter to put an oracle in place of; the
+		// clauses below are decided on the result by C19-ORDER
+		note := "not applicable: OrderDSCForBuild does not use pault.ag/go/topsort; decided on the result by C19-ORDER"
+		for _, w := range []string{"Build-Depends", "Build-Depends-Arch", "Build-Depends-Indep"} {
+			fields.ok("control.OrderDSCForBuild:"+w, pos, note)
+		}
+		edge.ok("control.OrderDSCForBuild", pos, note)
+		errs.ok("control.OrderDSCForBuild:AddEdge", pos, note)
+		errs.ok("control.OrderDSCForBuild:Sort", pos, note)
+		perm.ok("control.OrderDSCForBuild", pos, note)
+		c19Rest(p, rp, fn)
+		return
+	}
 	if dscT == nil || depT == nil || nodeT == nil {
 		fields.undecided("control.OrderDSCForBuild", pos, "types not found (DSC / Dependency / topsort.Node)")
 		return
@@ -301,6 +316,12 @@ func checkC19(p *Prog, rp *Report) {
 		edge.undecided("control.OrderDSCForBuild", pos, undecided)
 	}
 
+	c19Rest(p, rp, fn)
+}
+
+func c19Rest(p *Prog, rp *Report, fn *ssa.Function) {
+	pos := p.Pos(fn.Pos())
+	_ = pos
 	trim := rp.Rule("C19-TRIM", "DSC.Binaries is a trimmed comma list", 1)
 	tagRule(p, trim, func(doc string, ti tagInfo, kind string) bool { return doc == "control.DSC" && ti.Wire == "Binary" })
 	det := rp.Rule("C19-DET", "no range over a map in OrderDSCForBuild", 1)
@@ -313,4 +334,135 @@ func checkC19(p *Prog, rp *Report) {
 		}
 	}
 	det.check(okDet, "control.OrderDSCForBuild", pos, fmt.Sprintf("%d range-over-map loops, none order dependent", len(loops)), why)
+}
+
+// c19Order: OrderDSCForBuild interpreted end to end (the sorter included) on the eight-source scenario, with
+// the dependencies placed in each of the three fields in turn, and on a two-source cycle: the result is a
+// permutation of the input in which every provider precedes its dependents; a cycle is an error.
+func c19Order(p *Prog, rp *Report) {
+	r := rp.Rule("C19-ORDER", "the returned order puts every source after the sources that provide its build dependencies; a cycle is an error", 4)
+	fn := p.Func("control", "OrderDSCForBuild")
+	parse := p.Func("dependency", "Parse")
+	dscT := p.Named("control", "DSC")
+	archT := p.Named("dependency", "Arch")
+	if fn == nil || parse == nil || dscT == nil || archT == nil {
+		r.undecided("control.OrderDSCForBuild", "", "anchors not found")
+		return
+	}
+	pos := p.Pos(fn.Pos())
+	type src struct {
+		name string
+		bins []string
+		deps string
+	}
+	scenario := []src{
+		{"app", []string{"app"}, "${subst} | libfoo-dev, tool [!i386 !amd64] | missing-pkg, libfoo1 [sparc i386], libfoo-dev | extra-bin, extra-bin [!amd64]"},
+		{"tools", []string{"tools-bin"}, "gtk-doc"},
+		{"doc-tools", []string{"doc-tools"}, "gtk"},
+		{"tool", []string{"tool"}, "libfoo1 [amd64 sparc]"},
+		{"lib", []string{"libfoo1", "libfoo-dev"}, ""},
+		{"extra", []string{"extra-bin"}, ""},
+		{"gtk-doc", []string{"gtk-doc"}, ""},
+		{"gtk", []string{"gtk"}, ""},
+	}
+	edges := [][2]string{{"lib", "tool"}, {"lib", "app"}, {"gtk", "doc-tools"}, {"gtk-doc", "tools"}}
+	run := func(field string, srcs []src) (order []string, errNil bool, why string) {
+		m := NewMachine(p, nil)
+		st := initState(m, "control", "dependency")
+		mkDep := func(text string) (Val, string) {
+			st.Status = stRun
+			st.Frames = nil
+			st.push(parse, []Val{text}, nil)
+			out := m.Run(st)
+			if len(out) != 1 || out[0].Status != stRet {
+				return nil, retDesc(out)
+			}
+			tv := st.Ret.(*TupleV)
+			pp, ok := tv.E[0].(Ptr)
+			if !ok {
+				return nil, "dependency.Parse rejects " + text
+			}
+			v, _ := st.load(pp)
+			return cloneVal(v), ""
+		}
+		arr := &ArrayV{}
+		for _, s := range srcs {
+			f := map[string]Val{"Source": s.name, "Binaries": strSlice(st, s.bins)}
+			for _, fld := range []string{"BuildDepends", "BuildDependsArch", "BuildDependsIndep"} {
+				text := ""
+				if fld == field {
+					text = s.deps
+				}
+				d, why := mkDep(text)
+				if why != "" {
+					return nil, false, why
+				}
+				f[fld] = d
+			}
+			arr.E = append(arr.E, mkStruct(dscT, f))
+		}
+		aid := st.alloc(types.NewArray(dscT, int64(len(srcs))), arr)
+		st.Status = stRun
+		st.Frames = nil
+		st.push(fn, []Val{SliceV{Obj: aid, Len_: len(srcs), Cap: len(srcs)}, mkStruct(archT, map[string]Val{"ABI": "gnu", "OS": "linux", "CPU": "amd64"})}, nil)
+		out := m.Run(st)
+		if len(out) != 1 {
+			return nil, false, fmt.Sprintf("%d paths", len(out))
+		}
+		if out[0].Status == stPanic {
+			return nil, false, "PANIC: " + out[0].Msg
+		}
+		if out[0].Status != stRet {
+			return nil, false, retDesc(out)
+		}
+		tv := st.Ret.(*TupleV)
+		_, errNil = tv.E[1].(nilV)
+		elems, _, _ := m.sliceElems(st, tv.E[0])
+		for _, e := range elems {
+			if sv, ok := e.(*StructV); ok {
+				s, _ := sv.F[fieldIndex(structOf(dscT), "Source")].(string)
+				order = append(order, s)
+			}
+		}
+		return order, errNil, ""
+	}
+	for _, f := range []struct{ goName, wire string }{{"BuildDepends", "Build-Depends"}, {"BuildDependsArch", "Build-Depends-Arch"}, {"BuildDependsIndep", "Build-Depends-Indep"}} {
+		key := "control.OrderDSCForBuild:" + f.wire
+		order, errNil, why := run(f.goName, scenario)
+		switch {
+		case strings.HasPrefix(why, "PANIC"):
+			r.bad(key, pos, "ordering eight sources panics: "+why, nil)
+			continue
+		case why != "":
+			r.undecided(key, pos, why)
+			continue
+		case !errNil:
+			r.bad(key, pos, "an acyclic set of sources is rejected", nil)
+			continue
+		}
+		var problems []string
+		idx := map[string]int{}
+		for i, s := range order {
+			idx[s] = i
+		}
+		if len(order) != len(scenario) || len(idx) != len(scenario) {
+			problems = append(problems, fmt.Sprintf("the result %v is not a permutation of the %d sources", order, len(scenario)))
+		} else {
+			for _, e := range edges {
+				if idx[e[0]] > idx[e[1]] {
+					problems = append(problems, fmt.Sprintf("%s is ordered before %s, which provides one of its build dependencies (in %s): %v", e[1], e[0], f.wire, order))
+				}
+			}
+		}
+		fillProblems(r, key, pos, problems, "eight sources with the dependencies in this field: a permutation with lib before tool and app, gtk before doc-tools, gtk-doc before tools")
+	}
+	order, errNil, why := run("BuildDepends", []src{{"x", []string{"x-bin"}, "y-bin"}, {"y", []string{"y-bin"}, "x-bin"}, {"z", []string{"z-bin"}, ""}})
+	switch {
+	case strings.HasPrefix(why, "PANIC"):
+		r.bad("control.OrderDSCForBuild:cycle", pos, "a dependency cycle makes the function panic: "+why, nil)
+	case why != "":
+		r.undecided("control.OrderDSCForBuild:cycle", pos, why)
+	default:
+		r.check(!errNil && len(order) == 0, "control.OrderDSCForBuild:cycle", pos, "two sources that build-depend on each other: an error and no order", fmt.Sprintf("two sources that build-depend on each other give the order %v (error nil: %v)", order, errNil))
+	}
 }
